@@ -22,7 +22,8 @@ EXC_KINDS = ("SerialException", "SerialTimeoutException", "PortNotOpenError", "O
 # (what pyserial back ends raise, plus RuntimeError, which the library's own except clauses
 # name among the serial I/O exceptions)
 FAULTS = Profile(write_exc=EXC_KINDS, read_exc=EXC_KINDS,
-                 latency=(0, 1, 26), content=("err", "nameerr", "wrong", "sibling", "cut", "longerr"), silent=True,
+                 latency=(0, 1, 26), content=("err", "nameerr", "wrong", "sibling", "cut", "longerr", "jsonish", "lonebrace"),
+                 silent=True,
                  read_window=2)
 
 CONNECT_ENVS = ("ok", "nonebb", "openfail", "silent", "oldfw", "versionless", "missingname",
@@ -133,6 +134,13 @@ def run_history(chooser, steps):
                     viols.append((f"unlatched:{method}", f"{where}{desc}: the board's answer to "
                                   f"{last!r} was faulty ({what}) but no error was recorded, "
                                   f"later requests will transmit"))
+                elif refused and exc is not None and obj.err is None and obj.port is not None \
+                        and name not in ("r", "rb", "bl"):
+                    what = ", ".join(f"{k}={v}" for _t, k, v in fired)
+                    viols.append((f"escaped:{method}", f"{where}{desc}: the board's answer to "
+                                  f"{last!r} was faulty ({what}); the request let "
+                                  f"{type(exc).__name__} escape and recorded no error, later "
+                                  f"requests will transmit"))
             history.append(desc)
         elif kind in ("disconnect", "disconnect_fault"):
             if kind == "disconnect_fault" and ports:
